@@ -11,10 +11,14 @@ Definition new_of (g : graph) (done : list N) : list (N * list N) :=
 
 Definition kstep (g : graph) (done : list N) : list N := map fst (new_of g done) ++ done.
 
+(* at most k rounds; stops as soon as a round adds nothing *)
 Fixpoint iter (k : nat) (g : graph) (done : list N) : list N :=
   match k with
   | O => done
-  | S k' => iter k' g (kstep g done)
+  | S k' => match new_of g done with
+            | [] => done
+            | _ :: _ => iter k' g (kstep g done)
+            end
   end.
 
 Definition acyclic_dec (g : graph) : bool :=
@@ -63,7 +67,8 @@ Qed.
 
 Lemma iter_kinv : forall k g done, kinv g done -> kinv g (iter k g done).
 Proof.
-  induction k; intros; cbn; [assumption|]. apply IHk. apply kstep_kinv. assumption.
+  induction k; intros; cbn; [assumption|]. destruct (new_of g done); [assumption|].
+  apply IHk. apply kstep_kinv. assumption.
 Qed.
 
 Lemma acyclic_dec_sound : forall g, acyclic_dec g = true -> ~ cyclic g.
@@ -116,7 +121,7 @@ Proof. intros g done H. unfold kstep. rewrite H. reflexivity. Qed.
 
 Lemma iter_fix : forall k g done, new_of g done = [] -> iter k g done = done.
 Proof.
-  induction k; intros g done H; cbn; [reflexivity|]. rewrite (kstep_fix _ _ H). auto.
+  destruct k; intros g done H; cbn; [reflexivity|]. rewrite H. reflexivity.
 Qed.
 
 Lemma kstep_decreases : forall g done, new_of g done <> [] ->
@@ -141,7 +146,7 @@ Proof.
     + intros x Hx. apply andb_true_iff in Hx. tauto.
     + unfold undone in Hle. destruct (filter _ g); [reflexivity|cbn in Hle; lia].
   - cbn. destruct (new_of g done) as [|p0 t] eqn:E.
-    + rewrite (kstep_fix _ _ E). rewrite (iter_fix _ _ _ E). exact E.
+    + exact E.
     + apply IHk. assert (new_of g done <> []) by congruence.
       pose proof (kstep_decreases g done H). lia.
 Qed.
